@@ -7,15 +7,15 @@ from vf import env
 
 TEXT = {
     "C01": ("exploration", "runtime monitor on TokenizedMarkdown.transform: outcome + deterministic work count (sys.monitoring PY_START) under a step budget",
-            "Every parse in the frozen universes Z1-Z20 (quick: seed-chosen indices; thorough: all 3.72 M documents) must return tokens within K*(n+64)^2 counted function entries and within 20 s of process CPU time (work inside C extensions), and 51 scaling families must grow with exponent <= 2.3. Held on the documents explored; nothing is proved for documents outside the universes.", "4 C01"),
+            "Every parse in the frozen universes Z1-Z21 (quick: seed-chosen indices; thorough: all 3.72 M documents) must return tokens within K*(n+64)^2 counted function entries and within 20 s of process CPU time (work inside C extensions), and 51 scaling families must grow with exponent <= 2.3. Held on the documents explored; nothing is proved for documents outside the universes.", "4 C01"),
     "C02": ("exploration", "identity oracle regenerate(parse(d)) == d evaluated on every successful parse of the workload",
-            "Round-trip identity checked character for character on every explored document of Z1-Z20 and on every intermediate document the application parses while fixing (FX workload); exhaustive only over the frozen universes when the thorough tier runs.", "4 C02"),
+            "Round-trip identity checked character for character on every explored document of Z1-Z21 and on every intermediate document the application parses while fixing (FX workload); exhaustive only over the frozen universes when the thorough tier runs.", "4 C02"),
     "C03": ("exploration", "differential oracle: normalised HTML event stream vs vendored markdown-it-py (independent CommonMark implementation)",
             "Agreement with an independent implementation on every explored document on which the comparator does not abstain; inherits the reference's correctness outside the neutralised quirks.", "4 C03"),
     "C04": ("exploration", "independent stack automaton replayed over every token list the real parser returns",
-            "Nesting discipline checked on every explored parse of Z1-Z20 and on the internal parses of fix runs (FX workload); the tokens rules receive are identical objects (checked by C14).", "4 C04"),
+            "Nesting discipline checked on every explored parse of Z1-Z21 and on the internal parses of fix runs (FX workload); the tokens rules receive are identical objects (checked by C14).", "4 C04"),
     "C05": ("exploration", "position oracle (line exists, column in range, block order, opening text at the position) over every position-carrying token",
-            "Positions checked against the source text on every explored parse (Z1-Z20 incl. two generations of multi-line inline constructs and tab shapes, FX workload); text tokens by range only.", "4 C05"),
+            "Positions checked against the source text on every explored parse (Z1-Z21 incl. two generations of multi-line inline constructs and tab shapes, FX workload); text tokens by range only.", "4 C05"),
     "C06": ("exploration", "differential: real single-rule scans vs executable transcriptions of each rule's documented condition over an independent parse (three-valued)",
             "23 rules x their documented configuration values (incl. every ordering of MD013's three limits, MD012 maximum 0..3) on documents where both parsers agree; the oracle abstains where the rule's page is silent.", "4 C06"),
     "C07": ("exploration", "monitor on real scan runs: plugin errors, range / uniqueness / order of every report, repeat in the same and in a fresh process",
@@ -25,7 +25,7 @@ TEXT = {
     "C09": ("exploration", "fixed-point monitor: fix(fix(d)) == fix(d), second run silent, scan(fix(d)) has no fix-capable failure",
             "Three configurations per explored document (default, one rule, a pair); documents include tab shapes and lines needing several line-level fixes (group D).", "4 C09"),
     "C10": ("exploration", "file-system monitor (SHA-256 snapshots of private cwd + TMPDIR, audit hook on write-opens) around real scan / list / stdin / fix runs",
-            "bytes changed <=> announced <=> exit code, and read-only-ness of scan, on every explored 1-3 file case in both schemes; second family: CR-LF / CR / mixed line endings x {CLI fix, API fix_path, API fix_string} x both schemes (files_fixed / was_fixed must say exactly what changed, clean files stay byte-identical).", "4 C10"),
+            "bytes changed <=> announced <=> exit code, and read-only-ness of scan, on every explored 1-3 file case in both schemes; third family (T, always complete): 672 cases of trailing white space x leaf kind x MD009 settings x scheme (a fix condition broader than the scan condition); second family: CR-LF / CR / mixed line endings x {CLI fix, API fix_path, API fix_string} x both schemes (files_fixed / was_fixed must say exactly what changed, clean files stay byte-identical).", "4 C10"),
     "C11": ("exploration", "metamorphic monitor: document with one to three pragma lines inserted vs the original (tokens shifted; failures minus exactly the suppressed set; fix(d') keeps the pragma lines in place and equals fix(d) elsewhere)",
             "Explored insertion points include paragraphs, code blocks and containers; both prefixes, ids and aliases, several rules per pragma in either order, adjacent pragmas, several N, malformed forms; the fix-mode clause runs on half of the single-pragma cases, on every multi-pragma case and on hand-written regression documents.", "4 C11"),
     "C12": ("exploration", "multiset comparison of reports: all rules vs each of the 46 rules alone vs default vs default minus one",
@@ -35,7 +35,7 @@ TEXT = {
     "C14": ("exploration", "online trace checker over the call logs of recording rule plugins merged with dispatcher-side events",
             "Trace language S T* L* C per file and recorder (object identity of tokens, exactly one end-of-stream token last, exact line text), fix-mode passes, disabled recorder silent, passive recorder must not change fix output; thorough enumerates all 14700 variant cases.", "4 C14"),
     "C15": ("fault_enumeration", "fault injection: exception at the k-th plugin callback / j-th parser invocation, undecodable file at each position, SIGKILL (strace inject) at each syscall on the target during write-back",
-            "Every fault point of the frozen tables (30912 in-process cases incl. runs where the failing file defines the links a later file uses, 192 kill points) in thorough; quick samples them. Judged: exit category, file named, other files unaffected, file bytes in {original, fully fixed}, temp dir empty.", "4 C15"),
+            "Every fault point of the frozen tables (39744 in-process cases incl. runs where the failing file defines the links a later file uses or leaves a rule inside a list, 192 kill points) in thorough; quick samples them. Judged: exit category, file named, other files unaffected (reports, bytes and no error attributed to them), file bytes in {original, fully fixed}, temp dir empty.", "4 C15"),
     "C16": ("exploration", "differential between code paths: file scan, scan-stdin, scan_string, scan_path, CLI processes, fix vs fix_string; diagnostics on/off",
             "Same failures / fixed text / fixed flag through every entry point on every explored document and line-ending variant, every fourth under the minimal return-code scheme; verbose log levels (CLI and API) on every 40th document and on every document containing the logger's substitution character.", "4 C16"),
     "C17": ("exploration", "executable precedence model vs `plugins list` and probe scans over the enumerated layer lattice; strict/lenient cross-check for every configuration item",
@@ -45,7 +45,7 @@ TEXT = {
     "C19": ("exploration", "reference model of the documented selection rules vs --list-files / scan / fix / list_path on generated trees",
             "48000 (tree, arguments, flags, mode) cases plus 24000 cases of redundant path spellings, overlapping arguments and '**' globs in the frozen universe; quick samples 3600.", "4 C19"),
     "C20": ("exploration", "differential between extension configurations of the real parser; front-matter shift oracle; disabled extensions vs CommonMark reference",
-            "Each extension alone / all / none on documents split by trigger predicates; front-matter blocks valid (mappings, falsy values included) and invalid (malformed, non-mapping YAML); every extension switched off with valid / invalid / wrongly typed settings left over (lenient and strict).", "4 C20"),
+            "Each extension alone / all / none on documents split by trigger predicates; front-matter blocks valid (mappings, falsy values included) and invalid (malformed, non-mapping YAML); history family (18 cases): default-enabled run before and after a run with multi-entry settings in the same process must agree; every extension switched off with valid / invalid / wrongly typed settings left over (lenient and strict).", "4 C20"),
 }
 NOTE = "trusted base: the monitors and oracles in /verif/vf, CPython 3.12's sys.monitoring/audit hooks, and (C03/C06/C08/C20) vendored markdown-it-py; known genuine defects of the pinned tree are listed in known_findings.json + baseline/*.json.gz (frozen-universe inputs) and reported as KNOWN-FINDING, anything else is a VIOLATION"
 
